@@ -842,6 +842,11 @@ def synth_label_start(name, rng, k=3):
 def rich_corpus(name, limit, rng, n_synth=None, n_const=None):
     """Corpus sample + synthesised valid numbers + constant-substituted variants."""
     nums = corpus(name, limit=limit, rng=rng)
+    # one documented number of every length / leading-character class is always present (deterministic part)
+    classes = {}
+    for v in corpus(name):
+        classes.setdefault((len(v), v[:1].isdigit(), v[:1].isalpha()), v)
+    nums = nums + [v for v in list(classes.values())[:8] if v not in nums]
     n_synth = limit if n_synth is None else n_synth
     extra = synth_valid(name, n_synth, rng) if n_synth else []
     cv = constant_variants(name, corpus(name), rng)
